@@ -351,7 +351,10 @@ class StoreWorld(WorldBase):
         ev = ch.weighted([('touch', 2), ('rewrite_same', 2), ('rewrite_other', 3), ('replace_older', 2), ('truncate', 1.5),
                           ('delete', 1.5), ('delete_recreate', 1), ('restore', 5), ('replace_same_mtime', 1),
                           ('arm_getmtime_oserror', 0.7), ('arm_vanish', 0.7)])
-        return {'op': 'fs', 'fid': fid, 'ev': ev, 'dt': ch.randint(1, 100)}
+        op = {'op': 'fs', 'fid': fid, 'ev': ev, 'dt': ch.randint(1, 100)}
+        if ev.startswith('arm_'):
+            op['nth'] = ch.weighted([(1, 5), (2, 3), (3, 2)])  # which mtime check of the next operation fails (chunked reads re-check)
+        return op
 
     def _pick_bus(self, ch, buses):
         return ch.choice(buses)
@@ -499,6 +502,7 @@ class StoreWorld(WorldBase):
         ev = op['ev']
         self.tick(op.get('dt', 1))
         f.last_event = ev
+        self.armed_nth = op.get('nth', 1)
         if ev == 'arm_getmtime_oserror':
             self.armed = 'oserror'
             self.fault('armed-getmtime-oserror')
@@ -567,11 +571,17 @@ class StoreWorld(WorldBase):
         self.armed = None
         world = self
         orig_getmtime = self._orig_getmtime
-        state = {'fired': False}
+        state = {'fired': False, 'n': 0}
+        nth = getattr(self, 'armed_nth', 1)
 
         def getmtime(p):
             if not state['fired'] and os.path.abspath(p) == os.path.abspath(f.path):
+                state['n'] += 1
+                if state['n'] < nth:
+                    return orig_getmtime(p)
                 state['fired'] = True
+                if nth > 1:
+                    world.probe('mtime-check-failed-in-the-middle-of-an-operation')
                 os.path.getmtime = orig_getmtime
                 world.fault('fired-' + kind)
                 if kind == 'oserror':
